@@ -205,6 +205,12 @@ def run(ctx):
             rep.violation("ANN-2", b.key, "writer:%s" % norm_lhs(s["lhs"]),
                           "data-set field %s is written outside the S1 / M1-M2 update sites" % s["lhs"], where=fc.where(b, s["line"]))
 
+    # ---------------- ANN-6
+    rep.rule("ANN-6", "the per-master Announce list keeps arrival order when full (the BMCA takes its LAST entry as the "
+                      "parent's current Announce) - shared with C06 FM-7", floor=1)
+    from rules import c06 as _c06
+    _c06.check_eviction(rep, prog, "ANN-6")
+
     # ---------------- ANN-3
     try:
         sa_ = prog.one(name="send_announce", self_name="Port", crate="statime-lib")
